@@ -276,7 +276,8 @@ pub fn c09(ctx: &mut Ctx) {
     }
     // bare report blocks over the walk alphabets (k <= 2 over the 7 fields)
     {
-        let sp = &gens::sr_rr_spaces(ctx.tier, ctx.seed)[2];
+        let all = gens::sr_rr_spaces(ctx.tier, ctx.seed);
+        let sp = all.iter().find(|s| s.name == "rb-fraction-x-cumulative").expect("the fraction x cumulative space exists");
         let get = &sp.get;
         ctx.run_space("wellformed:bare-report-block", sp.len, |idx, l| {
             if let Pkt::Sr { blocks, .. } | Pkt::Rr { blocks, .. } = get(idx) {
@@ -297,6 +298,64 @@ pub fn c09(ctx: &mut Ctx) {
                 }
             }
         });
+    }
+    // iterator call histories: report_blocks() of SR / RR and ssrcs() of BYE driven through every sequence of
+    // next / nth / take-count calls up to a depth, then collect / count / last, against the item list that plain
+    // next() calls give (which the spaces above compare with the wire)
+    {
+        let counts = [0usize, 1, 2, 3, 4, 9, 31];
+        let depth = ctx.tier.pick(3u32, 4u32);
+        ctx.bound("iterator histories", format!("report_blocks() / ssrcs() of packets with {{0,1,2,3,4,9,31}} entries x padding {{0,8}}: all call sequences of length <= {} over {{next, nth(0), nth(1), nth(2), nth(7), take(2).count()}} x 4 endings", depth));
+        ctx.run_space("iterator-histories", (counts.len() * 2 * 3) as u64, |idx, l| {
+            let n = counts[(idx as usize / 6) % counts.len()];
+            let pad = if (idx / 3) % 2 == 0 { 0u8 } else { 8 };
+            let blocks: Vec<Rb> = (0..n).map(|i| gens::sentinel_rb(i, 0x55)).collect();
+            let p = match idx % 3 {
+                0 => Pkt::Sr { ssrc: 1, ntp: 2, rtp: 3, pc: 4, oc: 5, blocks, pad },
+                1 => Pkt::Rr { ssrc: 1, blocks, pad },
+                _ => Pkt::Bye { ssrcs: (0..n as u32).map(|i| 0x0100_0000 * (i + 1) + i).collect(), reason: "bye".into(), pad },
+            };
+            let img = wire::encode(&p);
+            l.evals += 1;
+            l.sample(|| format!("iterator histories on {}", hex_short(&img)));
+            l.nontrivial(fp_bytes(&img));
+            let show = || hex_short(&img);
+            let r = guard::catch(|| match idx % 3 {
+                0 => {
+                    let sr = SenderReport::parse(&img).map_err(|e| format!("{:?}", e))?;
+                    let reference = super::common::iterator_reference(sr.report_blocks(), 64);
+                    if reference.len() != n {
+                        return Err(format!("report_blocks() yields {} blocks, the packet has {}", reference.len(), n));
+                    }
+                    super::common::iterator_histories(l, "SenderReport::report_blocks", &|| sr.report_blocks(), &reference, depth, &show);
+                    Ok(())
+                }
+                1 => {
+                    let rr = ReceiverReport::parse(&img).map_err(|e| format!("{:?}", e))?;
+                    let reference = super::common::iterator_reference(rr.report_blocks(), 64);
+                    if reference.len() != n {
+                        return Err(format!("report_blocks() yields {} blocks, the packet has {}", reference.len(), n));
+                    }
+                    super::common::iterator_histories(l, "ReceiverReport::report_blocks", &|| rr.report_blocks(), &reference, depth, &show);
+                    Ok(())
+                }
+                _ => {
+                    let b = Bye::parse(&img).map_err(|e| format!("{:?}", e))?;
+                    let reference = super::common::iterator_reference(b.ssrcs(), 64);
+                    if reference.len() != n {
+                        return Err(format!("ssrcs() yields {} sources, the packet has {}", reference.len(), n));
+                    }
+                    super::common::iterator_histories(l, "Bye::ssrcs", &|| b.ssrcs(), &reference, depth, &show);
+                    Ok(())
+                }
+            });
+            match r {
+                Err(pi) => l.subject_panic("iterator-history", &pi, show),
+                Ok(Err(m)) => l.violation("iterator-history:setup", show, || m),
+                Ok(Ok(())) => {}
+            }
+        });
+        ctx.require_hit("iterator history agrees with repeated next()");
     }
     for sp in framing_spaces(ctx.tier) {
         let get = &sp.get;
